@@ -319,8 +319,11 @@ def main(argv=None):
     if hasattr(mod, "coverage_extra"):
         evidence["coverage"].update(mod.coverage_extra(agg))
     if tier != "replay":
-        os.makedirs(os.path.join(VERIF, "evidence"), exist_ok=True)
-        with open(os.path.join(VERIF, "evidence", f"{pid}.json"), "w") as fh:
+        # runs against a scratch tree (self-validation with VERIF_REPO) are not evidence about /repo
+        evdir = os.path.join(VERIF, "evidence") if os.environ.get("VERIF_REPO", "/repo") == "/repo" else \
+            os.path.join(VERIF, "evidence", "scratch")
+        os.makedirs(evdir, exist_ok=True)
+        with open(os.path.join(evdir, f"{pid}.json"), "w") as fh:
             json.dump(evidence, fh, indent=1, default=str)
             fh.write("\n")
 
